@@ -11,4 +11,5 @@ python3 tools/extract.py /repo coq/gen || echo "setup: translator reported error
 mkdir -p .cache
 ( cd harness/storage_harness && RUSTFLAGS="--cfg gecs_verif" cargo build --offline --profile dev --target-dir ../../.cache/target-default ) || echo "setup: harness (dev) build failed"
 ( cd harness/storage_harness && RUSTFLAGS="--cfg gecs_verif" cargo build --offline --profile fastrel --features events,wrapping_version --target-dir ../../.cache/target-events-wrapping_version ) || echo "setup: harness (fastrel) build failed"
+( cd harness/storage_harness && RUSTFLAGS="--cfg gecs_verif" cargo build --offline --profile fastrel --target-dir ../../.cache/target-default ) || echo "setup: harness (fastrel, no features) build failed"
 echo "setup done"
